@@ -132,10 +132,30 @@ pub fn emitted_facts(code: &str) -> Value {
   let mut tags: BTreeMap<String, String> = BTreeMap::new();
   let mut de: BTreeMap<String, Value> = BTreeMap::new();
   let mut ser: BTreeMap<String, Value> = BTreeMap::new();
+  let mut venums = Map::new();
+  let mut aliases = Map::new();
   for it in &file.items {
     match it {
+      Item::Type(t) => {
+        aliases.insert(t.ident.to_string(), json!(norm(&t.ty)));
+      }
       Item::Enum(e) => {
         let (flags, _, _) = attr_flags(&e.attrs);
+        // value enum: unit variants only, wire names from `rename`; anything else (payloads, `other`,
+        // aliases, container-level rename_all …) is reported as null = "accepts unknown"
+        if e.variants.iter().all(|v| matches!(v.fields, syn::Fields::Unit)) && !e.variants.is_empty() {
+          let plain_container = flags.is_empty();
+          let mut wires = vec![];
+          let mut clean = plain_container;
+          for v in &e.variants {
+            let (vf, rename, _) = attr_flags(&v.attrs);
+            if !vf.is_empty() {
+              clean = false;
+            }
+            wires.push(rename.unwrap_or_else(|| v.ident.to_string()));
+          }
+          venums.insert(e.ident.to_string(), if clean { json!(wires) } else { Value::Null });
+        }
         let variants: Vec<Value> = e
           .variants
           .iter()
@@ -246,7 +266,131 @@ pub fn emitted_facts(code: &str) -> Value {
       eo.insert(name, e);
     }
   }
-  json!({"enums": eo, "structs": structs})
+  json!({"enums": eo, "structs": structs, "venums": venums, "aliases": aliases})
+}
+
+/// `Option<T>` / `Box<T>` / `Vec<T>` -> (wrapper ident, T)
+fn peel(t: &syn::Type) -> Option<(String, syn::Type)> {
+  let syn::Type::Path(tp) = t else { return None };
+  let seg = tp.path.segments.last()?;
+  let syn::PathArguments::AngleBracketed(ab) = &seg.arguments else { return None };
+  if ab.args.len() != 1 {
+    return None;
+  }
+  let syn::GenericArgument::Type(inner) = &ab.args[0] else { return None };
+  Some((seg.ident.to_string(), inner.clone()))
+}
+
+/// The type the emitted code has at each requested use site, peeled down to its core:
+/// `Option`/`Box` dropped, `Vec` counted, type aliases followed; `kind` = decoding discipline of the core.
+pub fn site_types(code: &str, facts: &Value, sites: &Value) -> Value {
+  let Ok(file) = syn::parse_file(code) else { return Value::Null };
+  let mut alias: BTreeMap<String, syn::Type> = BTreeMap::new();
+  let mut structs: BTreeMap<String, &syn::ItemStruct> = BTreeMap::new();
+  let mut enums: BTreeMap<String, &syn::ItemEnum> = BTreeMap::new();
+  for it in &file.items {
+    match it {
+      Item::Type(t) => {
+        alias.insert(t.ident.to_string(), (*t.ty).clone());
+      }
+      Item::Struct(s) => {
+        structs.insert(s.ident.to_string(), s);
+      }
+      Item::Enum(e) => {
+        enums.insert(e.ident.to_string(), e);
+      }
+      _ => {}
+    }
+  }
+  let upper = |s: &str| {
+    let mut c = s.chars();
+    c.next().map(|f| f.to_uppercase().collect::<String>() + c.as_str()).unwrap_or_default()
+  };
+  let field_ty = |st: &str, wire: &str| -> Option<syn::Type> {
+    structs.get(st)?.fields.iter().find_map(|f| {
+      let (_, rename, _) = attr_flags(&f.attrs);
+      let name = f.ident.as_ref().map(ToString::to_string).unwrap_or_default();
+      let w = rename.unwrap_or_else(|| name.trim_start_matches("r#").to_string());
+      (w == wire).then(|| f.ty.clone())
+    })
+  };
+  let mut out = vec![];
+  for s in sites.as_array().cloned().unwrap_or_default() {
+    let at = &s["at"];
+    let g = |k: &str| at[k].as_str().unwrap_or_default().to_string();
+    let start: Option<syn::Type> = match at["k"].as_str().unwrap_or_default() {
+      "named" => syn::parse_str::<syn::Type>(&g("name")).ok().filter(|_| {
+        let n = g("name");
+        alias.contains_key(&n) || structs.contains_key(&n) || enums.contains_key(&n)
+      }),
+      "field" => field_ty(&g("holder"), &g("field")),
+      "body" => field_ty(&format!("{}Request", upper(&g("op"))), "body"),
+      "resp" => {
+        // the response enum is the one `parse_response` of the operation's request struct returns
+        // (operations with equal response shapes share one enum)
+        let req = format!("{}Request", upper(&g("op")));
+        let ret = file.items.iter().find_map(|it| match it {
+          Item::Impl(im) if im.trait_.is_none() && norm(&im.self_ty) == req => im.items.iter().find_map(|ii| match ii {
+            ImplItem::Fn(m) if m.sig.ident == "parse_response" => match &m.sig.output {
+              syn::ReturnType::Type(_, t) => peel(t).map(|(_, inner)| norm(&inner)),
+              _ => None,
+            },
+            _ => None,
+          }),
+          _ => None,
+        });
+        ret.and_then(|r| enums.get(&r)).and_then(|e| {
+          e.variants.iter().find(|v| v.ident == "Ok").and_then(|v| v.fields.iter().next().map(|f| f.ty.clone()))
+        })
+      }
+      _ => None,
+    };
+    let Some(mut t) = start else {
+      out.push(json!({"id": s["id"], "ty": Value::Null, "vec": 0, "core": "", "kind": "missing"}));
+      continue;
+    };
+    let raw = norm(&t);
+    let mut vec = 0;
+    let mut odd = false;
+    for _ in 0..16 {
+      if let Some((w, inner)) = peel(&t) {
+        match w.as_str() {
+          "Option" | "Box" => t = inner,
+          "Vec" => {
+            vec += 1;
+            t = inner;
+          }
+          _ => {
+            odd = true;
+            break;
+          }
+        }
+        continue;
+      }
+      let name = norm(&t);
+      if let Some(a) = alias.get(&name) {
+        t = a.clone();
+        continue;
+      }
+      break;
+    }
+    let core = norm(&t);
+    let kind = if odd {
+      "other"
+    } else if core == "serde_json::Value" {
+      "value"
+    } else if let Some(e) = facts["enums"].get(&core) {
+      if e["untagged"] == true { "untagged" } else { "tag" }
+    } else if structs.contains_key(&core) {
+      "struct"
+    } else if enums.contains_key(&core) {
+      "enum-other"
+    } else {
+      "other"
+    };
+    out.push(json!({"id": s["id"], "ty": raw, "vec": vec, "core": core, "kind": kind}));
+  }
+  Value::Array(out)
 }
 
 fn arm_guarded(m: &syn::ExprMatch) -> bool {
@@ -303,7 +447,7 @@ fn registry_facts(input: &Value) -> Result<Value, String> {
 
 pub fn eval(op: &str, input: &mut Value) -> OpResult {
   match op {
-    "disc.run" | "disc.code" => {
+    "disc.run" | "disc.code" | "disc.site" | "disc.sitecode" => {
       let reg = match registry_facts(input) {
         Ok(v) => v,
         Err(e) => return Ok(json!({"err": e})),
@@ -318,7 +462,10 @@ pub fn eval(op: &str, input: &mut Value) -> OpResult {
         return Ok(json!({"err": format!("emitted types file does not parse: {e}")}));
       }
       let mut out = json!({"registry": reg, "emitted": f, "gen_warnings": stats["warnings"]});
-      if op == "disc.code" {
+      if op == "disc.site" || op == "disc.sitecode" {
+        out["sites"] = site_types(types, &out["emitted"], &input["sites"]);
+      }
+      if op == "disc.code" || op == "disc.sitecode" {
         out["code"] = json!(types);
       }
       Ok(out)
